@@ -565,6 +565,29 @@ Fixpoint filter_from_proto (e : env) (t : table) (p : list (string * pfield)) : 
       end
   end.
 
+(** * C13-fix-5 (proposed): Valuer.Value first dereferences a non-nil pointer handed in for a column whose
+    type is not a pointer (a filter value such as Filter{"id": &id}), so that it is serialized exactly
+    like the column's own values: a pointer to a nil slice is NULL, a pointer to a zero value on an
+    implicitnull column is an implicit NULL.  In the model a filter value [Dyn b true (FVal g)] for a
+    non-pointer column becomes [Dyn b false (FVal g)] before anything else looks at it. *)
+Definition norm_dyn (d : desc) (x : dyn) : dyn :=
+  match x with
+  | Dyn b true (FVal g) => if d_ptr d then x else Dyn b false (FVal g)
+  | _ => x
+  end.
+
+Definition valuer5 (d : desc) (x : dyn) : dval := valuer d (norm_dyn d x).
+
+Definition norm_filter (t : table) (f : filter) : filter :=
+  map (fun nv => match find_col (fst nv) t with
+                 | Some d => (fst nv, norm_dyn d (snd nv))
+                 | None => nv
+                 end) f.
+
+(** tester / FilterToProto of the repaired code *)
+Definition tester5 (t : table) (f : filter) (row : option (list fval)) : bool := tester t (norm_filter t f) row.
+Definition filter_to_proto5 (t : table) (f : filter) : res (list (string * pfield)) := filter_to_proto t (norm_filter t f).
+
 (** * Representations: what MySQL can hand back for a stored driver value
 
     [col] is the MySQL column a field is stored in; [proto] which path the value takes back. *)
@@ -796,33 +819,41 @@ Definition check_row (e : env) (t : table) (dv : list dval) (r : rowobs) : list 
   (if res_eqb (list_eqb fval_eqb) (parse_binlog_row e t (ro_expected r) (ro_source r) (ro_binlog_row r)) (ro_parsed r)
    then [] else [3]).
 
-Definition check_filter (e : env) (t : table) (f : filterobs) : list nat :=
+(** [fix5]: whether the code under test has C13-fix-5 (probed by the harness on one value). *)
+Definition check_filter_gen (fix5 : bool) (e : env) (t : table) (f : filterobs) : list nat :=
+  let flt := if fix5 then norm_filter t (fo_filter f) else fo_filter f in
   (if Bool.eqb (filter_known t (fo_filter f)) (fo_known f) then [] else [4]) ++
   (if fo_known f then
-     (if forallb (fun rv => Bool.eqb (tester t (fo_filter f) (Some (fst rv))) (snd rv)) (fo_rows f) then [] else [4]) ++
-     (if res_eqb (list_eqb (named_eqb pfield_eqb)) (filter_to_proto t (fo_filter f)) (fo_proto f) then [] else [5]) ++
+     (if forallb (fun rv => Bool.eqb (tester t flt (Some (fst rv))) (snd rv)) (fo_rows f) then [] else [4]) ++
+     (if res_eqb (list_eqb (named_eqb pfield_eqb)) (filter_to_proto t flt) (fo_proto f) then [] else [5]) ++
      (match fo_proto f with
       | Ok p => if res_eqb (list_eqb (named_eqb dyn_eqb)) (filter_from_proto e t p) (fo_back f) then [] else [6]
       | Err => []
       end)
    else []).
 
-Definition check_case (e : env) (c : case) : list nat :=
+Definition check_filter := check_filter_gen false.
+
+Definition check_case_gen (fix5 : bool) (e : env) (c : case) : list nat :=
   let dv := unbuild (c_table c) (c_value c) in
   (if list_eqb dval_eqb dv (c_unbuilt c) then [] else [1]) ++
   flat_map (check_row e (c_table c) (c_unbuilt c)) (c_rows c) ++
   (if list_eqb (named_eqb dyn_eqb) (extract_row (c_table c) (c_value c)) (c_extract c) then [] else [8]) ++
   (if Bool.eqb (tester (c_table c) (c_extract c) (Some (c_value c))) (c_self c) then [] else [8]) ++
-  flat_map (check_filter e (c_table c)) (c_filters c).
+  flat_map (check_filter_gen fix5 e (c_table c)) (c_filters c).
 
-Fixpoint mismatches_sparse (e : env) (cs : list (nat * case)) : list (nat * list nat) :=
+Definition check_case := check_case_gen false.
+
+Fixpoint mismatches_sparse_gen (fix5 : bool) (e : env) (cs : list (nat * case)) : list (nat * list nat) :=
   match cs with
   | [] => []
-  | (i, c) :: t => match check_case e c with
-                   | [] => mismatches_sparse e t
-                   | l => (i, l) :: mismatches_sparse e t
+  | (i, c) :: t => match check_case_gen fix5 e c with
+                   | [] => mismatches_sparse_gen fix5 e t
+                   | l => (i, l) :: mismatches_sparse_gen fix5 e t
                    end
   end.
+
+Definition mismatches_sparse := mismatches_sparse_gen false.
 
 (** * Domain of the round-trip theorems (decidable; evaluated by the theorems' hypotheses) *)
 Open Scope Z_scope.
